@@ -63,6 +63,11 @@ func globItemsRemote(srcURL, itemRelDirPattern string) ([]string, error) {
 		return nil, err
 	}
 
+	if resp.StatusCode != http.StatusOK {
+		// The body is an error message, not a list of names.
+		return nil, fmt.Errorf("%s: %s", resp.Status, strings.TrimSpace(string(data)))
+	}
+
 	if len(data) == 0 {
 		return nil, convertRemoteErrNotExist(resp)
 	}
@@ -122,6 +127,11 @@ func globFilesRemote(srcURL, relPathPattern string) ([]string, error) {
 	data, err := ioutil.ReadAll(resp.Body)
 	if err != nil {
 		return nil, err
+	}
+
+	if resp.StatusCode != http.StatusOK {
+		// The body is an error message, not a list of names.
+		return nil, fmt.Errorf("%s: %s", resp.Status, strings.TrimSpace(string(data)))
 	}
 
 	if len(data) == 0 {
